@@ -271,7 +271,8 @@ def run(ctx):
             continue
         rem = msg.get_remainder()
         consumed = len(msg.get_so_far())
-        if c.well_formed():
+        keys_ok = len({asb(k) for k, _ in c.ext}) == len(c.ext)
+        if c.in_range() and keys_ok:  # the theorems' domain (roundtrip for complete pairs, pack_normalize otherwise)
             want_flags = sum(f for f, on in zip((SPEC_FLAGS["size"], SPEC_FLAGS["uidgid"], SPEC_FLAGS["perm"],
                                                  SPEC_FLAGS["amtime"], SPEC_FLAGS["ext"]), pres) if on)
             if a._flags != want_flags or data[:4] != struct.pack(">I", want_flags):
@@ -280,6 +281,10 @@ def run(ctx):
             if b._flags != want_flags:
                 ctx.fail("decoded-flags", c.describe(), "decoded _flags=%#x expected %#x" % (b._flags, want_flags))
             want = [None if v is None else int(v) for v in c.fields()]
+            if not pres[1]:  # a lone uid or gid is not transmitted (normalize)
+                want[1] = want[2] = None
+            if not pres[3]:
+                want[4] = want[5] = None
             got = [b.st_size, b.st_uid, b.st_gid, b.st_mode, b.st_atime, b.st_mtime]
             names = ["size", "uid", "gid", "mode", "atime", "mtime"]
             for nm, w, g in zip(names, want, got):
@@ -390,8 +395,8 @@ META = {
               "through a real client/server SFTP session on every check."),
     "note": ("Trusted: Lean kernel + 3 standard axioms; struct.pack/unpack (modelled as big-endian digits), CPython "
              "dict order and RHS-before-target evaluation; the harness. Half-present pairs (uid without gid) cannot "
-             "be expressed on the wire and are dropped by _pack: covered by correspondence, outside the theorem's "
-             "hypothesis. str keys/values come back as their UTF-8 bytes (compared after encoding). Float times are "
+             "be expressed on the wire: _pack transmits normalize(a) (theorems flags_normalize, pack_normalize; "
+             "normalize is the identity on complete pairs), the oracle expects exactly that. str keys/values come back as their UTF-8 bytes (compared after encoding). Float times are "
              "truncated by int() before packing (model takes the truncated integer). The oracle checks flag values "
              "against the SFTP v3 draft's constants."),
     "technique": "Lean 4 proof (segment-wise read-back lemmas, induction over the extended list, decide over the "
